@@ -1,6 +1,8 @@
 from props import *  # noqa: F401,F403
 
 rc_bin("c01_sched", ["harness/c01_batch_delivery.cc"], lib=False, shadow=BATCH_SHADOW, shadow_srcs=BATCH_SHADOW_SRCS, repo_srcs=BATCH_PLAIN)
+rc_bin("c01_thr", ["harness/batch_thr.cc"], lib=True, defines=['VH_PROP_ID=\\"C01\\"'])
+rc_bin("c01_thr_tsan", ["harness/batch_thr.cc"], lib=True, san="tsan", defines=['VH_PROP_ID=\\"C01\\"'])
 PROPS["C01"] = dict(
     level_text="Schedule-controlled execution of the unmodified batch span/log processors (token-renamed copies of batch_*_processor.{h,cc}, circular_buffer.h, atomic_unique_ptr.h compiled against a scheduler shim that owns every atomic/mutex/condition-variable/thread/clock operation, virtual time): configuration, producer/flusher/shutdown programs, exporter latency AND the interleaving are generated (weighted, uniform and PCT priority schedules), shrunk and replayed. Every explored history satisfied: exactly-once delivery, per-producer order, losses only under the legit-drop rule (queue could have been full by call/return stamps, or the produce call raced Shutdown), producers never wait for a slow exporter. Bounded exploration is the right level for a property quantified over interleavings.",
     technique="generated schedules over a deterministic scheduler shim (rapidcheck choice streams) + history-invariant oracle",
@@ -9,5 +11,9 @@ PROPS["C01"] = dict(
     runs=[
         run("bsp", "c01_sched", "bsp_sched", "rc", dict(procs=6, cases=1500), dict(procs=10, cases=20000), asan_extra=SCHED_ASAN),
         run("blp", "c01_sched", "blp_sched", "rc", dict(procs=6, cases=1500), dict(procs=6, cases=20000), asan_extra=SCHED_ASAN),
+        run("bsp-threads-tsan", "c01_thr_tsan", "bsp_threads", "rc", dict(procs=1, cases=150), dict(procs=3, cases=3000), deterministic=False, replay_bin="c01_thr_tsan"),
+        run("blp-threads-tsan", "c01_thr_tsan", "blp_threads", "rc", dict(procs=1, cases=150), dict(procs=3, cases=3000), deterministic=False, replay_bin="c01_thr_tsan"),
+        run("bsp-threads", "c01_thr", "bsp_threads", "rc", dict(procs=1, cases=150), dict(procs=3, cases=3000), deterministic=False),
+        run("blp-threads", "c01_thr", "blp_threads", "rc", dict(procs=1, cases=150), dict(procs=3, cases=3000), deterministic=False),
     ],
 )
